@@ -32,6 +32,7 @@ PROPS = {
     },
     "C04": {
         "title": "Nothing is served before a successful login",
+        "needs_cmds": True,
         "level": "exploration",
         "rule": "rapid-generated (account database, handshake bytes, first transaction with a credential variant, 0..5 appended "
                 "state-changing transactions, ban state, 1-2 logged-in observers) run against the real server in a synctest bubble; "
@@ -41,8 +42,10 @@ PROPS = {
                 "OR appended state-changing transactions); distinct = hash(handshake, first transaction, appended kinds, ban, accounts); in half of the cases an administrator first renames / re-passwords / deletes up to two accounts through the protocol and the attempt is aimed at the old or new login with the previous or current password (existing account and current password are meant at the time of the login)",
         "assumptions": ["synctest fake clock; stoppable replica of the 6-line outbox pump calling the production sendTransaction",
                         "passwords <= 72 bytes (bcrypt limit)"],
-        "quick": {"runs": [{"test": "^TestC04$", "shards": 16, "checks": 500, "timeout": 300}]},
-        "thorough": {"runs": [{"test": "^TestC04$", "shards": 16, "checks": 12000, "timeout": 3000}]},
+        "quick": {"runs": [{"test": "^TestC04$", "shards": 16, "checks": 500, "timeout": 300},
+                           {"test": "^TestC04Net$", "shards": 1, "timeout": 600}]},
+        "thorough": {"runs": [{"test": "^TestC04$", "shards": 16, "checks": 12000, "timeout": 3000},
+                              {"test": "^TestC04Net$", "shards": 2, "timeout": 600}]},
     },
     "C16": {
         "title": "A privilege bit means the same on the wire, in memory and on disk",
@@ -487,7 +490,7 @@ _LATER = {
     "C01": "TestC01Register: the per-tracker send path (hook VerifRegister) with name / description / password lengths from {0,1,50,127,128,200,237..240,254,255}: the tracker socket receives exactly one datagram that equals the reference encoding (non-trivial = record longer than 508 bytes); TestC01 scribbles over the source buffer after constructing a field (the field must have kept its own copy); the date case draws the host's time zone (fixed offsets -12:00..+14:00 in quarter hours): the same wall-clock reading must encode to the same bytes",
     "C02": "folder uploads leave leftovers (partial and complete items) that both partitions must agree on; the session client's replies are compared in order; a banner may be configured (same in both worlds); the sessions also run against a server that keeps resource and information forks in side files (both worlds alike), so the stored forks are part of the compared state",
     "C03": "while the hostile connections end, three goroutines read the server counters (Stats.Values) in a loop: a reader that blocks forever is a wedge (watchdog); TestC03Net: transfer-port storm kinds, the sentinel downloads a file of its own root before, during and after each batch and after bursts of 40 simultaneous transfer connections, and must get the file's bytes; one valid transfer grant presented on three transfer connections at the same instant (XRef replayed); TestC03Stalled: 63-200 logged-in peers stop reading while a broadcast waits for each of them: the well-behaved client's requests are answered, a newcomer can log in, and the user list is back to the well-behaved clients once the peers are gone; in a third of the cases a hostile user invites the sentinel to a new private chat and leaves it at once, and the sentinel accepts: it gets an answer and stays connected",
-    "C04": "logins whose file names are odd (.ops, a.b, x.yaml, -dash, ~t, #h), the data-size word of the login transaction varied, creations that must be refused (login with a path separator, 250 bytes) made before the attempt: none of them may open a door; logins that are an existing login (or the empty guest login) followed by one or two NUL bytes, with that account's password: another byte string, no account",
+    "C04": "logins whose file names are odd (.ops, a.b, x.yaml, -dash, ~t, #h), the data-size word of the login transaction varied, creations that must be refused (login with a path separator, 250 bytes) made before the attempt: none of them may open a door; logins that are an existing login (or the empty guest login) followed by one or two NUL bytes, with that account's password: another byte string, no account; TestC04Net (child process, production accept loop): a wrong password, an unknown login and a correct login from a banned address each get the handshake reply, exactly one error reply or ban notice, and then the close (within 30 s)",
     "C05": "cells added: ../-names in upload / rename, side-file kinds, an account record without a name (the logged-in name must be the one the account allows); TestC05GhostCategory: post-article to a news path that does not exist, by a requester without create-category / create-bundle: no grouping may appear in memory or in the file",
     "C06": "TestC06RenameForm (update-user rename form), TestC06GraceWindow, TestC06TwoCreators (two creators at one instant: neither account holds a bit its creator lacks), TestC06Bystander (a protected user sharing the kicked user's address is neither dropped nor refused), schedule point before registry delete in TestC06LoginWindow; creators whose privileges were set at run time (set-user) keep the 24 bits that name no privilege, and may request them: the created account holds exactly what was requested; creations also arrive as the second entry of a batch request whose first entry edits another account (each entry is judged on its own; the edited account must still be there)",
     "C07": "aliases are made in one folder and then moved to another (shallower or deeper) one: the link must still resolve inside the root; an account with a root of its own is edited through set-user and the server restarted; the file root is spelled with trailing separators / dot segments / relative forms; in a third of the per-account-root cases the root folder has been renamed away before the requests (the account then has no files; nothing of the server's tree may be touched, listed or disclosed instead); a third of the folder uploads go into a folder that holds partial files exactly where the server will look for the streamed items (the leftovers of a cut earlier upload), so that the resume branch is taken with traversal item paths",
